@@ -86,6 +86,25 @@ def run(rep, tier, seed):
         events.append(e)
         recipes[e["id"]] = {"op": "parse_cond", "spec": lit, "src": "random"}
         rep.note_case(repr(lit))
+        if rng.random() < 0.04:
+            # the SAME key spelled the same way with an argument TUPLE, then with its ==-but-differently-typed twin
+            # (hash-equal): two different conditions, whatever was parsed before
+            fn = rng.choice(["in_range", "not_in_range", "in_", "not_in", "equal_to"])
+            key = gd.rcase(rng, "value") + "." + gd.rcase(rng, {"in_": "in"}.get(fn, fn))
+            a = rng.choice([(1, 5), (0, 3), (2, 2), (1, 0)])
+            b = tuple(rng.choice([float(x), bool(x)] if x in (0, 1) else [float(x)]) for x in a[:1]) + a[1:]
+            for vals in (a, b):
+                if fn in ("in_range", "not_in_range"):
+                    rec = {"datum": "value", "pre": "none", "fn": fn, "actuals": list(vals), "akw": {}}
+                else:
+                    rec = {"datum": "value", "pre": "none", "fn": fn, "actuals": [vals], "akw": {}}
+                outd, dsl2 = outcome_of(lambda: gen.build_leaf(rec))
+                try:
+                    e2 = gd.parse_event(len(events) + 1, "parse_cond", {key: vals}, dsl=dsl2)
+                except Unencodable:
+                    break
+                events.append(e2)
+                recipes[e2["id"]] = {"op": "parse_cond", "spec": to_lit({key: vals}), "src": "tuple twins"}
 
     def keyf(m, e, r):
         k = {"clause": m["clause"], "op": e["op"], "outcome": e["outcome"]}
